@@ -211,7 +211,7 @@ def own_rows(path):
     return [(v, t, lat[j] if lat else None) for j, (v, t) in enumerate(rows)]
 
 
-def rows_paired(d, evols, cols, lattice):
+def rows_paired(d, evols, cols, lattice, values=True):
     """None when every row the implementation holds (volume, table values of the written components, lattice row) is a
     row of the file; a description of the first row that is not otherwise"""
     own = {v: (t, l) for v, t, l in own_rows(d / "elast.dat")}
@@ -219,13 +219,33 @@ def rows_paired(d, evols, cols, lattice):
         if v not in own:
             return "volume %r of the parsed table is not a volume of the file" % v
         t, l = own[v]
-        for k, x in t.items():
+        for k, x in (t.items() if values else ()):     # a crystal-system filling may move listed values: fill_glue
             kk = k if k in cols else (k[1], k[0])
             if kk in cols and abs(cols[kk][j] - x) > 1e-9 * max(1.0, abs(x)):      # the fill re-derives values
                 return "c%d%d at V=%r is %r in the parsed table, %r in the file" % (k + (v, cols[kk][j], x))
         if l is not None and (j >= len(lattice) or list(lattice[j]) != l):
             return ("the lattice row held for V=%r is %s, the file lists %s beside that volume (row i of the lattice block "
                     "belongs to row i of the table)" % (v, lattice[j] if j < len(lattice) else None, l))
+    return None
+
+
+def fill_glue(d, cfg, keys, cols):
+    """None when the table the calculation starts from is fill_cij (checked by C08/C09) of the table as WRITTEN in the
+    file, component for component; a description of the first difference otherwise"""
+    if cfg["system"] in (None, "triclinic"):
+        return None
+    import pandas
+    from cij.util.fill import fill_cij
+    rows = own_rows(d / "elast.dat")
+    df = fill_cij(pandas.DataFrame([{"c%d%d" % k: x for k, x in t.items()} for _, t, _ in rows]), system=cfg["system"])
+    want = {tuple(int(c) for c in name[1:]): [float(x) for x in df[name]] for name in df.columns}
+    if sorted(want) != sorted(keys):
+        return "components %s, fill_cij of the file's table gives %s" % (sorted(keys), sorted(want))
+    for k in keys:
+        for j, (a, b) in enumerate(zip(cols[k], want[k])):
+            if abs(a - b) > 1e-9 * max(1.0, abs(b)):
+                return ("c%d%d at row %d is %r, fill_cij(%s) of the table in the file gives %r"
+                        % (k + (j, a, cfg["system"], b)))
     return None
 
 
@@ -287,8 +307,9 @@ def observe(calc, ds, cfg, d, rng, eigs, consts):
             if a or (ti, vi) in ((nt - 1, 0),):
                 samples.append((k, True, ti, vi, float(adi[k][ti, vi])))
     hdk, h, kb = consts
-    paired = rows_paired(d, evols, cols, lattice)
-    return dict(paired=paired, keys=keys, cols=cols, evols=evols, lattice=lattice, varr=varr, tarr=tarr, cstat=cstat, clat=clat,
+    paired = rows_paired(d, evols, cols, lattice, values=cfg["system"] in (None, "triclinic"))
+    glue = fill_glue(d, cfg, keys, cols)
+    return dict(paired=paired, glue=glue, keys=keys, cols=cols, evols=evols, lattice=lattice, varr=varr, tarr=tarr, cstat=cstat, clat=clat,
                 cen=cen, qvols=qvols, ens=ens, freq=freq, gam=gam, vdr=vdr, weights=weights, na=ds["qha"]["na"],
                 P=P, cv=cv, mkeys=mkeys, ob_static=ob_static, iso=iso, adi=adi, ph_iso=ph_iso, ph_adi=ph_adi,
                 axial=axial, scale=scale, samples=samples, gpa=float(_to_gpa(1.0)), consts=consts,
@@ -466,6 +487,9 @@ def oracle(ctx, o, cfg, desc):
     if o.get("paired"):
         ctx.failure("static-rows-paired", "the static table the fit starts from is not the table of the file: " + o["paired"],
                     input=desc, observed=dict(volumes=o["evols"], lattice=o["lattice"]))
+    if o.get("glue"):
+        ctx.failure("fill-not-applied-first", "the table the fit starts from is not the crystal-system filling of the file's "
+                    "table: " + o["glue"], input=desc)
     g = float(GPA_CODATA)
     if abs(o["gpa"] / g - 1) > 1e-7:
         ctx.failure("gpa-factor", "1 Ry/bohr^3 is converted to %r GPa, CODATA 2018 gives %r" % (o["gpa"], g),
@@ -711,6 +735,15 @@ def run(ctx):
             if el["lattice"]:
                 el["lattice"] = [el["lattice"][k] for k in perm]
         ctx.count("static table row order: " + row_order)
+        # over-specified table: c22 listed beside c11 (equal by symmetry in these systems) a little off, inside the
+        # fill's acceptance window - the filling then MOVES both listed values
+        if cfg["system"] in ("cubic", "hexagonal", "tetragonal6", "tetragonal7", "trigonal6", "trigonal7") and i % 4 == 0 \
+                and "22" not in ds["elast"]["keys"]:
+            el = ds["elast"]
+            j11 = el["keys"].index("11")
+            el["keys"] = list(el["keys"]) + ["22"]
+            el["rows"] = [list(r) + [round(r[j11] + rng.choice([-1, 1]) * rng.uniform(0.05, 0.2), 3)] for r in el["rows"]]
+            ctx.count("over-specified static table (c22 beside c11, 0.05-0.2 GPa off)")
         d = rd / ("data%02d" % i)
         t0 = time.time()
         try:
